@@ -143,8 +143,10 @@ def streams(ctx):
     cases = gen_cases("vm", ["compile", n], ctx.seed)
     md, sd = correspond(ctx, "compiler-model-vs-compiled-code", cases, nontrivial)
     settle(ctx, md, sd)
-    # the compiler MODEL's output through the bytecode verifier (executable stand-in for the unproved
-    # theorem `verify (compile e) = ok`): same forms, every code object the model emits must verify
+    # the compiler MODEL's output through the bytecode verifier: the driver evaluates Vm.verifyCompiled =
+    # verify (encodeLam .) of every code object of compileRunnable (table, top-level lambda, entry lambda) on
+    # the same forms; theorem T04.6 (Proofs.C04.compile_verifies / vcompile_never_rejects) says the answer is
+    # never `reject`; the implementation side is the constant "ok" for every form the real compiler accepted
     vc = [("vcompile " + req[len("compile "):], "ok" if impl.startswith("ok") else "err", None)
           for (req, impl, _) in cases if req.startswith("compile ")]
     md, sd = correspond(ctx, "compiler-model-output-verifies", vc, lambda r, i: i == "ok",
@@ -164,8 +166,8 @@ def run(ctx):
              "apply, quasiquote, user macros, deep nested applications, failures) and generated sessions — prelude "
              "procedures included — must be accepted by the Lean bytecode verifier, and at every executed (code object, "
              "offset) the verifier's abstract stack height must equal the observed sp-bp-4 (below the argument block at "
-             "CALL/TCALL; sp - entry sp in entry code); the compiler model's own output is run through the verifier on "
-             "the forms of stream (2); (1) every instruction of generated sessions replayed through the Lean model of run_one (non-trivial: "
+             "CALL/TCALL; sp - entry sp in entry code); the compiler model's own output (canonical loading Vm.encodeLam, entry lambda included) is run through "
+             "the verifier on the forms of stream (2) — Vm.verifyCompiled, which theorem vcompile_never_rejects is about; (1) every instruction of generated sessions replayed through the Lean model of run_one (non-trivial: "
              "TCALL/VARARG/ENTER steps); (2) macro-expanded generated and malformed forms: real compiled code object "
              "vs compiler model, canonical by symbol name (non-trivial: code containing TCALL); (3) tail-call loops "
              "through 0..3 composed tail contexts (if/cond/case/and/or/when/unless/let/let*/letrec/begin/lambda/named "
@@ -173,6 +175,68 @@ def run(ctx):
              "procedures: value = iteration count and max_sp(n) equal for n = 10, 10^3, 2*10^4 (quick) or 10^5 "
              "(thorough; 5000 when eval recompiles each step)")
 
+
+# ROUND 9 (T04.6): the compiler model emits only code the verifier accepts
+THEOREMS = THEOREMS + [
+    "Marwood.Proofs.C04.compile_verifies",
+    "Marwood.Proofs.C04.compile_verifies_loaded",
+    "Marwood.Proofs.C04.verify_encode_irrelevant",
+    "Marwood.Proofs.C04.compile_runnable_verifies",
+    "Marwood.Proofs.C04.entry_code_verifies",
+    "Marwood.Proofs.C04.vcompile_never_rejects",
+    "Marwood.Vm.Verify.infer_checkAll",
+    "Marwood.Vm.Verify.verify_of_infer",
+    "Marwood.Vm.Verify.blk_scan",
+    "Marwood.Vm.blkOK_all",
+    "Marwood.Vm.compileTop_shape",
+    "Marwood.Proofs.C04.compiled_code_loaded_by_codeAt2_verifies",
+    "Marwood.Proofs.C04.compiled_lambda_clauses",
+    "Marwood.Proofs.C04.compiled_install_keeps_cinv",
+    "Marwood.Vm.Concrete.loaded_ok",
+    "Marwood.Vm.Concrete.GrowsL.inv",
+    "Marwood.Vm.blk_opsOK",
+]
+META["note"] = META["note"] + (
+    " ROUND 9 (T04.6) — supersedes 'verify (compile e) = ok is not proved' above: for the compiler MODEL it is now a "
+    "closed theorem. compile_verifies: for every datum e and fuel, if compileTop e fuel = ok (st, lam) then verifyLam "
+    "(encodeLam lam) and verifyLam (encodeLam l) for every l in st.lambdas succeed — all forms of the model (define in "
+    "both shapes, lambda incl. rest parameters and internal definitions, one- and two-armed if, set!, quote, "
+    "quasiquote/unquote incl. nesting and vector templates, CALL/TCALL applications), no excluded form, no guard; "
+    "compile_runnable_verifies adds the entry lambda PUSHIMM argc0; MOVIMM l acc; CALL; HALT (accepted as entry code, "
+    "the others as procedure code). compile_verifies_loaded / verify_encode_irrelevant: the same for EVERY loading of "
+    "the symbolic code into machine cells that keeps what the verifier reads (Vm.Enc: opcodes, acc, argc n, jump "
+    "targets exact; any GlobalEnvSlot / LexicalEnvSlot index; any data cell — pointer or address-free immediate — for "
+    "a quoted datum; any pointer for a code object), with the SAME typing (abstract stack per offset) and the same "
+    "maximal number of temporaries in all loadings. Proof in three independent parts: (a) Lemmas/CompileBlk.lean — by "
+    "induction on the fuel over all six mutual compiler functions, the emitted code is structured (inductive Blk: "
+    "single instructions with the operand kinds compile.rs emits, sequencing, framing, the conditional with its two "
+    "forward jumps) with a typed stack effect (operands push val, PUSHIMM argc pushes argc n, CALL/TCALL pop the "
+    "block, CONS pops two values), under the invariant that every formal is in the environment map (hence no "
+    "BasePointerOffset operand is ever emitted: emitLoc_locB); (b) Lemmas/VerifyBlk.lean + VerifyProc.lean — the "
+    "verifier's forward pass runs through every Blk at every offset with every pending-edge context (joins meet equal "
+    "stacks, no edge is left pending), hence through [VARARG] ENTER body RET; (c) Lemmas/VerifyInfer.lean — "
+    "infer_checkAll: for ALL bytecode (not only compiled code) an assignment returned by the forward pass passes the "
+    "independent local check, so verify accepts exactly when infer succeeds (verify_of_infer). No finding: the "
+    "verifier accepts everything the compiler model emits. Executable tie: the driver command vcompile now "
+    "evaluates Vm.verifyCompiled (the function vcompile_never_rejects is about) on every form of the "
+    "compiled-code comparison stream (stream compiler-model-output-verifies: 0 rejects). What this does NOT say: "
+    "that the real compiler equals the model (carried by stream compiler-model-vs-compiled-code, by symbol name) "
+    "and that the real loader's cells satisfy Enc (carried by the bytecode-verifier stream on real heaps); macro "
+    "expansion is outside compileTop. Corollaries (Lemmas/CompileVerifiesLoads.lean, CompileVerifiesOps.lean, "
+    "CompileVerifiesCInv.lean): compiled_code_loaded_by_codeAt2_verifies — the loading relation CodeAt2 of the C01 "
+    "compiler-correctness proofs implies Enc once quoted data are data cells (Loads/Loads2 constrain a datum cell only "
+    "through the parameter VR), so a heap lambda that CodeAt2-holds compiled code verifies; compiled_lambda_clauses — "
+    "every lambda object that is a loading of a code object of compile_runnable satisfies the four code clauses of the "
+    "machine invariants: CInv.lamVer (verifies), CInv.noIofArg (the model's environment maps never have an "
+    "IofArgument source: newEnvmap_noIof, from 'every formal is in the enclosing map'), CInv.lamArgs (argNeed = 0: no "
+    "BasePointerOffset cell at all) and LamOk (MOV/MOVIMM operands at EVERY offset holding those opcodes, not only "
+    "reachable ones: blk_opsOK); compiled_install_keeps_cinv — the code half of what C12's note calls 'prepare_eval "
+    "re-establishes VmOkP is not proved: the compiler is unmodelled' and of the assumed law ExtCodeLaws.compileEval: a "
+    "heap that differs from a CInv heap by allocated lambda cells holding loaded compiler-model output (GrowsL; the "
+    "allocation facts of Heap::put — not on the free list, map sizes, continuation cells untouched — stay hypotheses) "
+    "is a CInv heap again, keeps all old code, and keeps LamAll. NOT covered: the data cells the compiler allocates "
+    "for quoted constants (GoodI's heap-shape clauses), PInv, and the identification of ext.compileEval with this model."
+)
 
 # ROUND 8: the Ext laws are theorems for a table of real builtins (lib/props/procinv_util.py, Lemmas/ListExtC04.lean)
 import procinv_util as _pv8
